@@ -35,8 +35,8 @@ def budget(tier):
 
 @st.composite
 def _cases(draw, all_k=False):
-    kind = draw(st.sampled_from(["tdvp", "tdvp", "tdvp", "dmrg", "dmrg", "noisy"]))
-    n = 2 if kind == "noisy" else draw(st.integers(3, 5))
+    kind = draw(st.sampled_from(["tdvp", "tdvp", "tdvp", "dmrg", "dmrg", "noisy", "multi"]))
+    n = 2 if kind in ("noisy", "multi") else draw(st.integers(3, 5))
     order = list(draw(st.permutations(list(range(n)))))
     steps = draw(st.integers(2, 6 if kind != "dmrg" else 3))
     return {"kind": kind, "n": n, "order": order, "spacing": draw(st.sampled_from([6.0, 7.0, 8.5])), "steps": steps,
@@ -82,14 +82,16 @@ def _setup(case):
     obs = [pb.Occupation(evaluation_times=ev), pb.CorrelationMatrix(evaluation_times=ev), pb.Energy(evaluation_times=ev),
            pb.BitStrings(evaluation_times=[1.0], num_shots=200)]
     reorder = case["reorder"]
-    if case["extra_obs"] and not reorder and kind != "noisy":
+    if case["extra_obs"] and not reorder and kind not in ("noisy", "multi"):
         obs += [pb.StateResult(evaluation_times=[1.0]), EntanglementEntropy(0, evaluation_times=ev)]
     kw = dict(dt=dt, observables=obs, precision=1e-8, optimize_qubit_ordering=reorder, autosave_dt=11.0,
               solver=Solver.DMRG if kind == "dmrg" else Solver.TDVP)
-    if kind == "noisy":
+    if kind in ("noisy", "multi"):
         from pulser import NoiseModel
 
         kw["noise_model"] = NoiseModel(dephasing_rate=25.0)
+    if kind == "multi":
+        kw["n_trajectories"] = 2 + case["seed"] % 3  # ONE run of several trajectories, interrupted inside one of them
     with warnings.catch_warnings():
         warnings.simplefilter("ignore")
         cfg = e2e.mps_config(**kw)
@@ -108,6 +110,8 @@ def check_case(case) -> Result:
     with crash.workdir():
         if kind == "noisy":
             return _noisy(case, r, make, seq, ids, cfg)
+        if kind == "multi":
+            return _multi(case, r, make, ids, cfg)
         e2e.seed_all(case["seed"])
         status, ref, info = crash.run_with_saves(make)
         if status != "finished":
@@ -216,4 +220,45 @@ def _noisy(case, r, make, seq, ids, cfg):
     r.nontrivial = max(saves_seen) > min(saves_seen)  # trajectories with jump searches have extra save points
     if np.any(np.abs(mean - want) > bound + 1e-6):
         r.fail("resumed_trajectories_differ_from_lindblad", f"mean occupation {mean.tolist()} vs exact {want.tolist()} (bound {bound.tolist()}, M={M})")
+    return r
+
+
+def _multi(case, r, make, ids, cfg):
+    """one run of M > 1 trajectories interrupted after a generated save and resumed: the returned results must still combine
+    M trajectories (deterministic witness: the bitstring counts add up to M x shots, as in the uninterrupted run)"""
+    M = cfg.n_trajectories
+    e2e.seed_all(case["seed"])
+    status, ref, info = crash.run_with_saves(make)
+    if status != "finished":
+        from pbt.common import HarnessError
+
+        raise HarnessError("uninterrupted run crashed")
+    K = info["saves"]
+    want_total = sum(ref.bitstrings[-1].values())
+    if want_total != 200 * M:
+        r.fail("bitstring_total:uninterrupted:multi", f"{want_total} != {200 * M}")
+        return r
+    r.nontrivial = K >= 2
+    for k in sorted({1 + (x % K) for x in case["ks"]} | {max(1, K - 1)}):
+        e2e.seed_all(case["seed"])
+        status, path, _ = crash.run_with_saves(make, crash_at_save=k)
+        if status != "crashed":
+            continue
+        e2e.seed_all(case["seed"] + 1)
+        try:
+            got = crash.resume(path)
+        except BaseException as e:  # noqa: BLE001
+            import traceback
+
+            r.fail("resume_raised:multi", f"k={k}/{K}: " + "".join(traceback.format_exception(type(e), e, e.__traceback__))[-900:])
+            return r
+        tot = sum(got.bitstrings[-1].values())
+        if tot != want_total:
+            r.fail("resumed_multi_trajectory_run_does_not_combine_all_trajectories",
+                   f"run of {M} trajectories interrupted after save {k}/{K} and resumed: bitstring counts add up to {tot}, uninterrupted run {want_total} "
+                   f"(= {M} x 200 shots)")
+            return r
+        if tuple(got.atom_order) != tuple(ids):
+            r.fail("atom_order_differs:multi", f"{got.atom_order} vs {ids}")
+            return r
     return r
